@@ -17,7 +17,11 @@ type rhp3Pair struct {
 }
 
 func rhp3Open(ab, ba dirPlan, deadline time.Duration) (*rhp3Pair, error) {
-	l := newLink("10.3.0.1:4003", "10.3.0.2:9983", ab, ba, deadline)
+	return rhp3OpenOn(newLink("10.3.0.1:4003", "10.3.0.2:9983", ab, ba, deadline))
+}
+
+// rhp3OpenOn establishes a real RHP3 session over the two ends of l.
+func rhp3OpenOn(l *link) (*rhp3Pair, error) {
 	var ht *rhp3.Transport
 	var herr error
 	var wg sync.WaitGroup
